@@ -281,8 +281,18 @@ pub fn sample_valid(defs: &Map<String, Value>, s: &Value, depth: usize) -> Value
         Some("null") => Value::Null,
         Some("boolean") => json!(true),
         Some("integer") | Some("number") => {
-            let lo = s.get("minimum").and_then(|x| x.as_f64()).or_else(|| s.get("exclusiveMinimum").and_then(|x| x.as_f64()).map(|x| x + 1.0));
-            let hi = s.get("maximum").and_then(|x| x.as_f64());
+            // exclusive bounds come as numbers (JSON Schema) or as booleans next to minimum / maximum (OpenAPI 3.0)
+            let excl = |k: &str| s.get(k).and_then(|x| x.as_bool()).unwrap_or(false);
+            let lo = s.get("minimum").and_then(|x| x.as_f64()).map(|x| if excl("exclusiveMinimum") { x + 1.0 } else { x });
+            let lo = match (lo, s.get("exclusiveMinimum").and_then(|x| x.as_f64()).map(|x| x + 1.0)) {
+                (Some(a), Some(b)) => Some(a.max(b)),
+                (a, b) => a.or(b),
+            };
+            let hi = s.get("maximum").and_then(|x| x.as_f64()).map(|x| if excl("exclusiveMaximum") { x - 1.0 } else { x });
+            let hi = match (hi, s.get("exclusiveMaximum").and_then(|x| x.as_f64()).map(|x| x - 1.0)) {
+                (Some(a), Some(b)) => Some(a.min(b)),
+                (a, b) => a.or(b),
+            };
             let mut v = lo.unwrap_or(1.0);
             if let Some(h) = hi {
                 if v > h { v = h; }
